@@ -20,8 +20,11 @@ CHECKS = {
              "constants, binary operations, comparison chains, unary / boolean / conditional expressions, expression statements, assignments, pass, nested if / else, with the "
              "before_stmt / after_stmt / after_module_stmt expansion and direct and deferred emits): for every fragment program and every subscription set the erasure of the "
              "model's output is the source; the model is tied to expr_rewriter.py / stmt_inserter.py by whole-tree equality with the real rewriter's output on 80 generated "
-             "fragment programs per run (K-syn).",
-        note="The universal claim over programs is established program by program (translation validation with a verified checker), not by one theorem about a model "
+             "fragment programs per run (K-syn). C01_frag_semantics (model/FragSem.v) is an UNCONDITIONAL semantic statement on the fragment: for all primitive operations, every "
+             "subscription, every source module and environment, the instrumented term ends with the exception and the bindings of the module as it is - a theorem about an "
+             "evaluator under observing handlers, tied per generated program (K-sem, 60 per run) to the real rewriter (output tree = the typed rewriter's), to CPython and to the "
+             "real runtime (exception type, final bindings, recorded event stream = the evaluator's).",
+        note="Outside the fragment the universal claim over programs is established program by program (translation validation with a verified checker), not by one theorem about a model "
              "of the rewriter; the laws are facts about CPython's evaluation, validated by the differential oracle, not proved. Trusted: Coq kernel + vm_compute; the "
              "AST exporter (interning, id canonicalisation); translators for node kinds, event names and reserved identifiers.",
         ref="DESIGN.md section 7 C01"),
@@ -33,7 +36,10 @@ CHECKS = {
              "evaluated by coqc on every rewritten program of the run: at every emit site the expression handed to the handler, once its own instrumentation is erased, is the source "
              "construct numbered by the embedded node id (or its designated child) that the event table names; C02_site_value turns a passed check into semantic equivalence. "
              "Dynamic: ~90 generated programs (every supported event alone, then subsets) - the complete recorded stream (event, node type, span, value) must equal, in order, "
-             "the stream of tools/impl/ref_instr.py (probes placed on the source AST from the event table alone), including brackets ended by return/break/continue/exception.",
+             "the stream of tools/impl/ref_instr.py (probes placed on the source AST from the event table alone), including brackets ended by return/break/continue/exception. "
+             "C02_frag_stream (model/FragSem.v) is UNBOUNDED on a fragment of Python: for all primitive operations, subscriptions, source modules and environments the subscribed "
+             "events arrive exactly as the reference evaluator writes them out construct by construct (once per occurrence, in order, with value and node, also when the program raises); "
+             "tied to the real rewriter, CPython and the runtime by K-sem.",
         note="Trusted: Coq kernel + vm_compute; ref_instr.py as the definition of what each event means (59 events with an unambiguous source meaning); astexport; the laws of EraseSound.v "
              "(Section hypotheses). Choices: bare except = except BaseException with no source node; before_subscript_* fire after the subscript expression.",
         ref="DESIGN.md section 7 C02"),
@@ -48,8 +54,9 @@ CHECKS = {
              "every AST event alone vs all events on six feature programs plus generated programs x subset pairs, and the oracle compares the two recorded streams occurrence "
              "by occurrence. C03_rw_frag_canonical / C03_rw_frag_proj are UNBOUNDED: on the Gallina model of the rewriter for a fragment of Python (model/RwFrag.v, tied to the "
              "real rewriter by whole-tree equality in C01's K-syn) K-erasing the rewrite under ANY subscription set containing K gives one and the same tree, for every "
-             "fragment program and every K.",
-        note="The universal claim over programs is established pair by pair (translation validation with a verified checker). The laws are facts about CPython's "
+             "fragment program and every K. C03_frag_projection (model/FragSem.v) states the same about EVALUATION with no law assumed: the stream received for K from the term "
+             "instrumented for any superset equals the stream with K alone (K-sem ties the evaluator to real runs).",
+        note="Outside the fragment the universal claim over programs is established pair by pair (translation validation with a verified checker). The laws are facts about CPython's "
              "evaluation under observing handlers in an enabled context (guards never activated), validated by the stream oracle, not proved. Trusted: Coq kernel + "
              "vm_compute; astexport (one interner for both rewrites); translators for node kinds, event names, reserved identifiers.",
         ref="DESIGN.md section 7 C03"),
